@@ -343,7 +343,7 @@ theorem essence_firstAnn (cfg : Cfg) (extra : List (List String))
     cases l with
     | annotations p k v1 ig => simp only [diffbaseBuild, leafBuild, hb, markKey, isDRS_withAnn hm]
     | status f ig => simp only [diffbaseBuild, leafBuild, hb]
-  | multi ls => simp only [diffbaseBuild, hb]
+  | multi ls => simp only [diffbaseBuild, hb, multiBuild_withAnn _ _ hm]
 end
 
 end Kopf.C04
